@@ -174,10 +174,23 @@ pub fn run(ctx: &Ctx) -> i32 {
     for p in parts.into_iter().rev() {
         rep.merge(p);
     }
+    // hand-assembled composites (transforms no planner produces): the same product
+    let hand: Vec<usize> = HAND_LENS.to_vec();
+    let hparts = par_map(&hand, |_, &n| {
+        let mut r = Report::new();
+        one_len::<f32>(n, &[PK::Hand], &mut r, None);
+        one_len::<f64>(n, &[PK::Hand], &mut r, None);
+        r
+    });
+    for p in hparts {
+        rep.merge(p);
+    }
+    rep.set("handbuilt_lengths", Json::Arr(hand.iter().map(|x| Json::Int(*x as i64)).collect()));
     // structured lengths above the dense range and lengths beyond 2^16: the same shape product, three distinct planners
     let thorough = t == crate::framework::Tier::Thorough;
-    let mut big: Vec<usize> = crate::lens::thin(&crate::lens::pool(nmax, t.pick(1 << 14, 1 << 17)), t.pick(24, 120)).iter().map(|x| x.0).collect();
-    big.extend(crate::lens::beyond_u16(thorough).iter().map(|x| x.0).filter(|&n| thorough || n < 200_000));
+    // (the product is ~1600 calls per planner, direction and type, each allocating its buffers: lengths stay below 2^18)
+    let mut big: Vec<usize> = crate::lens::thin(&crate::lens::pool(nmax, t.pick(1 << 14, 1 << 16)), t.pick(24, 80)).iter().map(|x| x.0).collect();
+    big.extend(crate::lens::beyond_u16(thorough).iter().map(|x| x.0).filter(|&n| n < 200_000));
     big.sort();
     big.dedup();
     big.reverse();
@@ -206,7 +219,7 @@ pub fn run(ctx: &Ctx) -> i32 {
     rep.sample(Json::Str(key(PK::Avx, "f32", FftDirection::Forward, 37, Entry::Immut, 73, 74, 36)));
     rep.sample(Json::Str(key(PK::Sse, "f64", FftDirection::Inverse, nmax, Entry::OutOfPlace, 2 * nmax, nmax, 0)));
     rep.rule = format!(
-        "planners x {{f32,f64}} x {{fwd,inv}} x every n in 1..={nm} (plus the structured and beyond-2^16 lengths listed under lengths_above_dense_range) x 4 entry points x data length in {{1, n-1, n, n+1, 2n-1, 2n, 2n+1, 3n+-1, 3n, 4n+-1, 4n}} x output length in {{=, +-1, +-n}} x scratch length in {{0, adv-1, adv, adv+1}}: the full product (about 200 shapes per instance and entry point); oracle: the documented contract as a predicate -- must-succeed shapes return and every chunk equals the single-chunk result within 2B, must-panic shapes unwind and never return normally; empty data and n = 0 are 'unspecified' (recorded as an observation). Non-trivial: n >= 2.",
+        "[also: one hand-assembled composite per length in handbuilt_lengths -- RadersAlgorithm / BluesteinsAlgorithm / MixedRadix / GoodThomasAlgorithm / Radix4 / Radix3::new_with_base over planner-built inner transforms that contain Bluestein's algorithm -- through the same product] planners x {{f32,f64}} x {{fwd,inv}} x every n in 1..={nm} (plus the structured and beyond-2^16 lengths listed under lengths_above_dense_range) x 4 entry points x data length in {{1, n-1, n, n+1, 2n-1, 2n, 2n+1, 3n+-1, 3n, 4n+-1, 4n}} x output length in {{=, +-1, +-n}} x scratch length in {{0, adv-1, adv, adv+1}}: the full product (about 200 shapes per instance and entry point); oracle: the documented contract as a predicate -- must-succeed shapes return and every chunk equals the single-chunk result within 2B, must-panic shapes unwind and never return normally; empty data and n = 0 are 'unspecified' (recorded as an observation). Non-trivial: n >= 2.",
         nm = nmax
     );
     rep.exhaustive = true;
